@@ -66,7 +66,8 @@ REQUIRED_PROBES = ["madgwick.Madgwick.updateIMU", "madgwick.Madgwick.updateMARG"
                    "complementary.Complementary.am_estimation"]
 RULE = ("cases = (filter configuration, true attitude Haar-random, initial error e0 in {175, 150-175, 90-150, 10-90, 0-10} deg about a "
         "random axis (horizontal axis for accelerometer-only variants), magnetic dip in +-70 deg, gyro noise sigma 1e-12..1e-3 rad/s realised as 3-axis Gaussian / one-axis / two-axis / quantised (exact-zero components), "
-        "seed); each case is one run of 1.5 N samples; non-trivial = e0 > 1 deg")
+        "seed); each case is one run of 1.5 N samples (one 40 000-sample hold per configuration); streamed filters are handed the attitude as a plain array or as the "
+        "library's own Quaternion object (a TypeError refusal is an answer, the case is then judged with the array); non-trivial = e0 > 1 deg")
 ASSUMPTIONS = ["bounded-progress restatement: N and tol per configuration come from the filter's gain/geometry (Madgwick: N >= 4 pi/(gain dt), "
                "tol = 5 gain dt + 2e-3; ROLEQ: N from rho = (1 + 2|cos angle(refs)|)/3; others calibrated on the pinned tree, x2 in N and x5 in tol)",
                "measurement direction table of vt/filt.py (validated on the pinned tree)", "own reference pair >= 10 deg from collinear",
